@@ -181,4 +181,4 @@ def run(desc, ctx):
         raise Violation("flow:value-not-maximum", {"objective": res.objective, "max": want})
 
 
-SUBS = [Sub("max_flow", run, strategy=lambda tier: graphs(tier), quick=1500, thorough=12000, workers_quick=4)]
+SUBS = [Sub("max_flow", run, strategy=lambda tier: graphs(tier), quick=3000, thorough=12000, workers_quick=4)]
